@@ -44,6 +44,11 @@ def check(model: Model, rep: Report, tier: str):
     with rep.isolated():
         share_rule(rep, model, _k1_k2, "C08.S5", "exporting before or after nesting / unrolling gives the same instructions: every operation class's copy() keeps "
                    "all its fields, in particular the record offsets of detector / observable annotations (= C05.K1/K2)")
+    from .c01 import r7
+    with rep.isolated():
+        share_rule(rep, model, r7, "C08.S6", "the exporter multiplies a repeated block by its count and unrolling appends count-1 copies: both give the same instructions only "
+                   "if extend() appends every node of each copy, whatever the block holds -- zero-length annotations included (= C01.R7 extend)",
+                   keep=lambda o: o["construct"].startswith("CircuitCompositeOperation.extend"))
 
 
 def _ctor_name(v: Term) -> Optional[str]:
